@@ -346,6 +346,12 @@ def gen_case(rng, tier, op=None, lens=None, dtype=None, recv=None):
 def directed():
     import random
     rng = random.Random(808)
+    # several hundred thousand short rows and a single longer one near the start: any block-wise padding must agree on the common width
+    for nrows_ in (300000, 262145):
+        ll = [(i * 7) % 3 for i in range(nrows_)]
+        ll[17] = 4
+        for side_ in ("left", "right"):
+            yield {"op": "padded", "a": {"lens": ll, "dtype": "int8", "vals": [(i % 5) + 1 for i in range(sum(ll))], "recv": "fresh"}, "side": side_, "fill": -1}
     shapes = [[], [0], [0, 0], [3], [0, 2, 3], [2, 3, 0], [2, 0, 0, 3], [1, 1, 1], [0, 12, 1], [4, 1, 0, 2]]
     for lens in shapes:
         for op in OPS:
